@@ -230,6 +230,54 @@ func (g *Gen) CoroutineProgram() *Chunk {
 				CallSN("emit", Str("inner-status"), co("status", N(inner))))
 		}
 	}
+	// the thread behind a wrap function, obtained with coroutine.running(), driven by coroutine.resume
+	if g.R.Intn(4) == 0 {
+		h, f := g.fresh("h"), g.fresh("wf")
+		var end Stmt = Return(Str("wrapped:ret"), N("r"))
+		if g.R.Intn(3) == 0 {
+			end = CallSN("error", &ETable{Items: []TItem{{Kind: TName, Name: "code", Val: Num(3)}}})
+		}
+		b.Stmts = append(b.Stmts,
+			&SLocal{Names: []string{h}},
+			Local1(f, co("wrap", Fn([]string{"a"}, false, Blk(
+				Assign1(N(h), co("running")),
+				CallSN("emit", Str("wrapped:start"), N("a")),
+				Local1("r", co("yield", Bin("+", N("a"), Num(1)))),
+				CallSN("emit", Str("wrapped:resumed"), N("r")),
+				Local1("r2", co("yield", Str("second"))),
+				CallSN("emit", Str("wrapped:resumed2"), N("r2")),
+				end)))),
+			CallSN("emit", Str("by-wrap"), CallN("pcall", N(f), Num(1))),
+			CallSN("emit", Str("by-resume"), co("resume", N(h), Num(5))),
+			CallSN("emit", Str("status"), co("status", N(h))))
+		if g.R.Intn(2) == 0 {
+			b.Stmts = append(b.Stmts, CallSN("emit", Str("by-wrap-again"), CallN("pcall", N(f), Num(6))))
+		} else {
+			b.Stmts = append(b.Stmts, CallSN("emit", Str("by-resume-again"), co("resume", N(h), Num(6))))
+		}
+		b.Stmts = append(b.Stmts, CallSN("emit", Str("status"), co("status", N(h))), CallSN("emit", Str("dead"), co("resume", N(h))), CallSN("emit", Str("dead-wrap"), &EParen{X: CallN("pcall", N(f))}))
+		g.cover("co:resume-thread-of-wrap")
+	}
+	// a host (Go) function as the body
+	if g.R.Intn(5) == 0 {
+		hc := g.fresh("hc")
+		b.Stmts = append(b.Stmts,
+			Local1(hc, co("create", N("hostret"))),
+			CallSN("emit", Str("host-body"), co("resume", N(hc), Num(2), Str("a"), Str("b"), Str("c"))),
+			CallSN("emit", Str("host-body-status"), co("status", N(hc)), Bin("==", co("running"), &ENil{})),
+			CallSN("emit", Str("host-body-wrap"), Call(co("wrap", N("hostret")), Num(1), Str("w"))),
+			CallSN("emit", Str("host-body-dead"), co("resume", N(hc))))
+		g.cover("co:host-function-body")
+	}
+	// resumes nested without bound end in an error, not in a dead process
+	if g.R.Intn(8) == 0 {
+		rf := g.fresh("nest")
+		b.Stmts = append(b.Stmts,
+			&SLocalFunc{Name: rf, F: &Func{Body: Blk(Return(&EParen{X: Call(co("wrap", N(rf)))}))}},
+			CallSN("emit", Str("runaway-nesting"), &EParen{X: CallN("pcall", N(rf))}),
+			CallSN("emit", Str("after-runaway"), co("status", co("create", Fn(nil, false, Blk()))), Bin("==", co("running"), &ENil{})))
+		g.cover("co:runaway-nesting")
+	}
 	// drain: resume everything until dead, bounded
 	for _, c := range names {
 		iv := g.fresh("i")
